@@ -1430,7 +1430,7 @@ Frame.container_names = frozenset()
 # --------------------------------------------------------------------------
 def to_coq(t):
     k = t[0]
-    nat = lambda i: f'{i}%nat'
+    nat = lambda i: f'{i}%N'
     lst = lambda xs: '[' + '; '.join(nat(x) for x in xs) + ']'
     if k in ('Skip', 'Raise', 'Break', 'Continue', 'EFresh', 'EScalar'):
         return k
